@@ -235,6 +235,24 @@ theorem pubparse_nxp_ecc (ext : Ext) (c : Curve) (x y : Nat) (hx : x < 256 ^ c.c
       pubParseRsa ext (rawSig c x y) = .error .spsdk :=
   B.pubparse_nxp_ecc ext c x y hx hy hon hder hs
 
+/-- The routing does not look at the first byte: a raw ECC key of a legal length is recovered by the auto-detecting
+    entry point WHATEVER its leading byte is (0x30 = DER SEQUENCE tag, 0x2D = '-', 0x04, …), as long as the DER loader
+    either refuses the blob (then the raw fallback runs) or yields the very same key.  (A re-routing such as
+    "data starting with 0x30 goes to the DER loader only" falsifies this statement's model counterpart and shows up
+    in the `key_serialisation` correspondence and oracle, which sweep all 256 leading bytes of X and Y per curve.) -/
+theorem pubparse_nxp_ecc_any_first_byte (ext : Ext) (c : Curve) (x y : Nat) (hx : x < 256 ^ c.cl) (hy : y < 256 ^ c.cl)
+    (hon : ext.onCurve c x y = true) (hder : ext.loadDer = none ∨ ext.loadDer = some (.ecc c x y))
+    (hs : fileEncoding (rawSig c x y) = .der) :
+    pubParse ext (rawSig c x y) = .ok (.ecc c x y) ∧ pubParseEcc ext (rawSig c x y) = .ok (.ecc c x y) := by
+  rcases hder with hder | hder
+  · exact ⟨(B.pubparse_nxp_ecc ext c x y hx hy hon hder hs).1, (B.pubparse_nxp_ecc ext c x y hx hy hon hder hs).2.1⟩
+  · have h : pubParse ext (rawSig c x y) = .ok (.ecc c x y) := by simp [pubParse, hs, hder]
+    exact ⟨h, by simp [pubParseEcc, h]⟩
+
+/-- non-vacuity: a raw P-256 blob whose first byte is the DER SEQUENCE tag, sniffed as binary -/
+example : (rawSig .p256 (0x30 * 256 ^ 31 + 5) 7).head? = some 0x30 ∧ fileEncoding (rawSig .p256 (0x30 * 256 ^ 31 + 5) 7) = .der := by
+  decide +kernel
+
 theorem pubparse_nxp_rsa (ext : Ext) (ks n e : Nat) (hks : ks ∈ KeysTables.rsaSupportedKeySizes) (hn : TopBit n ks)
     (he : 65536 ≤ e ∧ e < 2 ^ 32) (hok : ext.rsaOk n e = true) (hder : ext.loadDer = none)
     (d : Bytes) (hd : rsaExportNxp n e = .ok d) (hs : fileEncoding d = .der) :
